@@ -5,7 +5,7 @@ Engine E2: breadth-first search over edit histories on small node pools.  A stat
 that reaches it; every transition replays the history on FRESH plasTeX.DOM objects, applies one
 more editing call, and compares the complete pointer graph with the list-of-lists reference model
 (vp/refs/dom_tree_c06.py) stepped with the same event.  Every distinct state additionally gets its
-derived views (first/last child, sibling navigation, textContent, getElementsByTagName,
+derived views (first/last child, sibling navigation, textContent, getElementsByTagName, allChildNodes,
 compareDocumentPosition) compared with the model.  States are merged on a canonical key = model dump
 + full dump of the implementation's pointers (children, parentNode incl. stale ones, ownerDocument,
 attribute maps, whether the child list has been materialised).
@@ -63,9 +63,13 @@ ALL_DEL = ('remove', 'pop', 'pop0')
 
 
 class Scenario(object):
-    def __init__(self, name, pool, setup, ops, depth, targets=None, args=None, max_nodes=0, idx='full'):
+    """pool: (kind, tag/text) per node id; setup: events that build the initial state; ops: the menu;
+    targets/args: initial-pool ids allowed as target / argument (None = all; nodes created later are always allowed);
+    max_nodes: cloneNode is offered only while the pool is smaller than this"""
+
+    def __init__(self, name, pool, setup, ops, depth, targets=None, args=None, max_nodes=0):
         self.name, self.pool, self.setup, self.ops = name, pool, setup, frozenset(ops)
-        self.depth, self.targets, self.args, self.max_nodes, self.idx = depth, targets, args, max_nodes, idx
+        self.depth, self.targets, self.args, self.max_nodes = depth, targets, args, max_nodes
 
 
 SCENARIOS = {}
@@ -77,23 +81,31 @@ def _scn(*a, **k):
 
 
 # node ids are positions in `pool`
+# lists : document, 3 elements, 2 text nodes, all detached; every insertion / removal form on every container
 _scn('lists',
      pool=[(D, None), (E, 'p'), (E, 'q'), (E, 'p'), (T, 'x'), (T, 'y')],
-     setup=[], ops=ALL_INS + ALL_DEL, depth={'quick': 4, 'thorough': 5})
+     setup=[], ops=ALL_INS + ALL_DEL, depth={'quick': 4, 'thorough': 6})
+# frags : element A(0), B(1), text(2), fragment F(3)=[element 4, text 5], empty fragment G(6); targets A, F, G;
+#         arguments B, text, F, G (fragment insertion by every form, fragment into fragment, setAttribute)
 _scn('frags',
      pool=[(E, 'p'), (E, 'q'), (T, 'x'), (F, None), (E, 'p'), (T, 'y'), (F, None)],
      setup=[('append', 3, 4, NA), ('append', 3, 5, NA)],
      ops=ALL_INS + ALL_DEL, depth={'quick': 4, 'thorough': 5}, targets=(0, 3, 6), args=(1, 2, 3, 6))
+# clone : document, element, element 2 carrying attribute arg = fragment 3 = [element 4], 2 text nodes;
+#         append / insert(0) / removeChild / pop / normalize / cloneNode(False|True) / setAttribute
 _scn('clone',
      pool=[(D, None), (E, 'p'), (E, 'q'), (F, None), (E, 'p'), (T, 'x'), (T, 'y')],
      setup=[('append', 3, 4, NA), ('setattr', 2, 3, NA)],
      ops=('append', 'insert0', 'remove', 'pop', 'normalize', 'clone', 'setattr'),
      depth={'quick': 3, 'thorough': 4}, max_nodes=14)
+# clone5: the same menu without insert(0)/pop on a 5-node pool, one level deeper
 _scn('clone5',
      pool=[(E, 'p'), (E, 'q'), (F, None), (E, 'p'), (T, 'x')],
      setup=[('append', 2, 3, NA), ('setattr', 1, 2, NA)],
      ops=('append', 'remove', 'normalize', 'clone', 'setattr'),
      depth={'quick': 4, 'thorough': 5}, max_nodes=8)
+# full  : the pool of DESIGN.md (document, 3 elements, 2 texts, fragment 5 = [element 6, text 7], element 8 with
+#         attribute arg = fragment 9 = [element 10]) with the complete menu
 _scn('full',
      pool=[(D, None), (E, 'p'), (E, 'q'), (T, 'x'), (T, 'y'), (F, None), (E, 'p'), (T, 'z'), (E, 'q'), (F, None),
            (E, 'p')],
@@ -708,7 +720,11 @@ def expand_chunk(item):
             case = {'scn': name, 'history': [list(e) for e in h2], 'check': 'transition'}
             v = j['verdict']
             if v == 'ok':
-                why = post_checks(scn, ev, j['impl'], j['model'])
+                try:
+                    with core.time_limit(TLIMIT):
+                        why = post_checks(scn, ev, j['impl'], j['model'])
+                except core.Timeout:
+                    why = 'second normalize() did not return within %.0f s' % TLIMIT
                 if why:
                     rep.case(key=('T', name, h2), nontrivial=True, outcome='post')
                     rep.violation(case, None, None, why)
